@@ -35,7 +35,7 @@ def _stamp(shape: Tuple[int, int], block: np.ndarray, r: int, c: int) -> np.ndar
 class A(Adapter):
     name = "FlatPack"
     mask_mode = "joint"
-    fork_every = 4
+    fork_every = 1  # episodes last num_blocks steps and the reset state has no illegal action: fork at every visited state
     has_invalid_effect = True
     has_constraints = True
     has_objective = True
